@@ -322,3 +322,1542 @@ Proof.
     + apply N.eqb_eq in E; subst. exfalso. apply H2. change k' with (fst (k', v)). apply in_map; assumption.
     + auto.
 Qed.
+
+(* ================================================================== one P-Rep through the events *)
+Section Proj.
+Variables br elected limit : Z.
+
+Definition vote_step (k : addr) (ty : vtype) (o : Z) (s : prep) (v : addr * Z) : prep :=
+  if N.eqb (fst v) k then prep_apply_vote ty (snd v) (limit - o) br s else s.
+
+(* what processEvents does to the P-Rep stored under key k *)
+Definition prep_step (k : addr) (s : prep) (oe : Z * event) : prep :=
+  match oe with
+  | (_, EEnable t st) => if N.eqb t k then set_status st s else s
+  | (o, EVote ty _ vs) => fold_left (vote_step k ty o) vs s
+  end.
+
+Lemma pi_apply_one_get ty o pi v k s :
+  aget k (pi_preps pi) = Some s ->
+  aget k (pi_preps (pi_apply_one br limit ty o pi v)) = Some (vote_step k ty o s v).
+Proof.
+  intros Hk. destruct v as [to a]. unfold pi_apply_one, vote_step. simpl fst; simpl snd.
+  destruct (aget to (pi_preps pi)) eqn:E.
+  - simpl. rewrite aget_update_key. rewrite (N.eqb_sym to k).
+    destruct (N.eqb k to) eqn:E2.
+    + apply N.eqb_eq in E2; subst. rewrite E in Hk. inversion Hk; subst. rewrite E. reflexivity.
+    + assumption.
+  - assert (k <> to) by (intros ->; congruence).
+    simpl. rewrite aget_update_key. rewrite (N.eqb_sym to k).
+    destruct (N.eqb k to) eqn:E2; [apply N.eqb_eq in E2; congruence|].
+    rewrite aget_aset_other by assumption. assumption.
+Qed.
+
+Lemma pi_apply_one_rank ty o pi v :
+  pi_rank (pi_apply_one br limit ty o pi v) = pi_rank pi /\ pi_total (pi_apply_one br limit ty o pi v) = pi_total pi.
+Proof.
+  destruct v as [to a]. unfold pi_apply_one. destruct (aget to (pi_preps pi)); simpl; auto.
+Qed.
+
+Lemma pi_apply_vote_get ty o vs : forall pi k s,
+  aget k (pi_preps pi) = Some s ->
+  aget k (pi_preps (pi_apply_vote br limit ty vs o pi)) = Some (fold_left (vote_step k ty o) vs s).
+Proof.
+  unfold pi_apply_vote. induction vs as [|v vs IH]; intros pi k s Hk; simpl; [assumption|].
+  apply IH. apply pi_apply_one_get; assumption.
+Qed.
+
+Lemma pi_apply_vote_rank ty o vs : forall pi,
+  pi_rank (pi_apply_vote br limit ty vs o pi) = pi_rank pi /\ pi_total (pi_apply_vote br limit ty vs o pi) = pi_total pi.
+Proof.
+  unfold pi_apply_vote. induction vs as [|v vs IH]; intros pi; simpl; [auto|].
+  destruct (IH (pi_apply_one br limit ty o pi v)) as [H1 H2].
+  destruct (pi_apply_one_rank ty o pi v) as [H3 H4]. split; congruence.
+Qed.
+
+Lemma process_event_get pi oe k s :
+  aget k (pi_preps pi) = Some s ->
+  aget k (pi_preps (process_event br limit pi oe)) = Some (prep_step k s oe).
+Proof.
+  intros Hk. destruct oe as [o [t st|ty from vs]]; simpl.
+  - unfold pi_set_status. destruct (aget t (pi_preps pi)) eqn:E; simpl.
+    + rewrite aget_aset. rewrite (N.eqb_sym t k). destruct (N.eqb k t) eqn:E2; [|assumption].
+      apply N.eqb_eq in E2; subst. congruence.
+    + rewrite aget_aset. rewrite (N.eqb_sym t k). destruct (N.eqb k t) eqn:E2; [|assumption].
+      apply N.eqb_eq in E2; subst. congruence.
+  - apply pi_apply_vote_get; assumption.
+Qed.
+
+Lemma process_event_rank pi oe :
+  pi_rank (process_event br limit pi oe) = pi_rank pi.
+Proof.
+  destruct oe as [o [t st|ty from vs]]; simpl.
+  - unfold pi_set_status. destruct (aget t (pi_preps pi)); reflexivity.
+  - apply pi_apply_vote_rank.
+Qed.
+
+Lemma process_events_get evs : forall pi k s,
+  aget k (pi_preps pi) = Some s ->
+  aget k (pi_preps (fold_left (process_event br limit) evs pi)) = Some (fold_left (prep_step k) evs s).
+Proof.
+  induction evs as [|oe evs IH]; intros pi k s Hk; simpl; [assumption|].
+  apply IH. apply process_event_get; assumption.
+Qed.
+
+Lemma process_events_rank evs : forall pi,
+  pi_rank (fold_left (process_event br limit) evs pi) = pi_rank pi.
+Proof.
+  induction evs as [|oe evs IH]; intros pi; simpl; [reflexivity|].
+  rewrite IH. apply process_event_rank.
+Qed.
+
+(* ------------------------------------------------------------------ invariants of the whole map *)
+Definition all_vals {V} (P : V -> Prop) (m : amap V) : Prop := forall k v, aget k m = Some v -> P v.
+
+Lemma all_vals_aset {V} (P : V -> Prop) k v m : all_vals P m -> P v -> all_vals P (aset k v m).
+Proof.
+  intros Hm Hv k' v' H. rewrite aget_aset in H. destruct (N.eqb k' k).
+  - inversion H; subst; assumption.
+  - eapply Hm; eassumption.
+Qed.
+
+Lemma all_vals_update_key {V} (P : V -> Prop) k f m :
+  all_vals P m -> (forall v, P v -> P (f v)) -> all_vals P (update_key k f m).
+Proof.
+  intros Hm Hf. unfold update_key. destruct (aget k m) eqn:E; [|assumption].
+  apply all_vals_aset; auto. apply Hf. eapply Hm; eassumption.
+Qed.
+
+Lemma all_vals_fold_update {V} (P : V -> Prop) f l : forall m,
+  all_vals P m -> (forall v, P v -> P (f v)) -> all_vals P (fold_left (fun m k => update_key k f m) l m).
+Proof.
+  induction l; intros m Hm Hf; simpl; [assumption|].
+  apply IHl; auto. apply all_vals_update_key; auto.
+Qed.
+
+(* no reward has been computed yet *)
+Definition rewards_zero (p : prep) : Prop := p_comm p = 0 /\ p_vr p = 0 /\ p_wage p = 0.
+
+Lemma rewards_zero_apply_vote ty a per p : rewards_zero p -> rewards_zero (prep_apply_vote ty a per br p).
+Proof.
+  unfold prep_apply_vote, rewards_zero. destruct ty; simpl;
+  match goal with |- context [if ?c then _ else _] => destruct c end; simpl; auto.
+Qed.
+
+Lemma process_event_inv (P : prep -> Prop) pi oe :
+  (forall ty a per p, P p -> P (prep_apply_vote ty a per br p)) ->
+  (forall st p, P p -> P (set_status st p)) ->
+  (forall k st, P (prep_update_power br (new_prep k st 0 0 0 false))) ->
+  all_vals P (pi_preps pi) /\ NoDup (keys (pi_preps pi)) ->
+  all_vals P (pi_preps (process_event br limit pi oe)) /\ NoDup (keys (pi_preps (process_event br limit pi oe))).
+Proof.
+  intros Hv Hs Hn. destruct oe as [o [t st|ty from vs]]; simpl.
+  - intros [Ha Hd]. unfold pi_set_status. destruct (aget t (pi_preps pi)) eqn:E; simpl.
+    + split; [apply all_vals_aset; auto; apply Hs; eapply Ha; eassumption|apply keys_aset_NoDup; assumption].
+    + split; [apply all_vals_aset; auto|apply keys_aset_NoDup; assumption].
+  - unfold pi_apply_vote. revert pi. induction vs as [|[to a] vs IH]; intros pi [Ha Hd]; simpl; [auto|].
+    apply IH. unfold pi_apply_one. destruct (aget to (pi_preps pi)) eqn:E; simpl.
+    + split; [apply all_vals_update_key; auto|rewrite keys_update_key; assumption].
+    + split; [apply all_vals_update_key; auto; apply all_vals_aset; auto
+             |rewrite keys_update_key; apply keys_aset_NoDup; assumption].
+Qed.
+
+Lemma process_events_inv (P : prep -> Prop) evs :
+  (forall ty a per p, P p -> P (prep_apply_vote ty a per br p)) ->
+  (forall st p, P p -> P (set_status st p)) ->
+  (forall k st, P (prep_update_power br (new_prep k st 0 0 0 false))) ->
+  forall pi,
+  all_vals P (pi_preps pi) /\ NoDup (keys (pi_preps pi)) ->
+  all_vals P (pi_preps (fold_left (process_event br limit) evs pi))
+  /\ NoDup (keys (pi_preps (fold_left (process_event br limit) evs pi))).
+Proof.
+  intros Hv Hs Hn. induction evs as [|oe evs IH]; intros pi H; simpl; [assumption|].
+  apply IH. apply process_event_inv; assumption.
+Qed.
+
+End Proj.
+
+Lemma fold_left_additive {S A} (g : S -> Z) (h : A -> Z) (step : S -> A -> S) :
+  (forall s a, g (step s a) = g s + h a) ->
+  forall l s, g (fold_left step l s) = g s + sumZ h l.
+Proof.
+  intros H. induction l; intros s; simpl; [lia|]. rewrite IHl, H. lia.
+Qed.
+
+Lemma fold_left_frame {S A B} (g : S -> B) (step : S -> A -> S) :
+  (forall s a, g (step s a) = g s) ->
+  forall l s, g (fold_left step l s) = g s.
+Proof.
+  intros H. induction l; intros s; simpl; [reflexivity|]. rewrite IHl, H. reflexivity.
+Qed.
+
+Definition vtype_eqb (a b : vtype) : bool :=
+  match a, b with VBond, VBond | VDelegate, VDelegate => true | _, _ => false end.
+
+(* votes of one list that go to k *)
+Definition amount_to (k : addr) (vs : votes) : Z := sumZ (fun v => if N.eqb (fst v) k then snd v else 0) vs.
+
+(* votes of kind ty that an event gives to k *)
+Definition ev_amount (ty : vtype) (k : addr) (oe : Z * event) : Z :=
+  match snd oe with
+  | EVote t _ vs => if vtype_eqb t ty then amount_to k vs else 0
+  | EEnable _ _ => 0
+  end.
+
+Lemma amount_to_notin k vs : ~ In k (map fst vs) -> amount_to k vs = 0.
+Proof.
+  intros H. apply sumZ_zero. intros [to a] Hin. simpl.
+  destruct (N.eqb to k) eqn:E; [|reflexivity].
+  apply N.eqb_eq in E; subst. exfalso. apply H. change k with (fst (k, a)). apply in_map; assumption.
+Qed.
+
+Lemma getz_amount_to k (vs : votes) : NoDup (map fst vs) -> getz k vs = amount_to k vs.
+Proof.
+  unfold getz, amount_to. induction vs as [|[to a] vs IH]; intros Hnd; simpl; [reflexivity|].
+  inversion Hnd; subst. rewrite (N.eqb_sym k to). destruct (N.eqb to k) eqn:E.
+  - apply N.eqb_eq in E; subst. fold (amount_to k vs). rewrite amount_to_notin by assumption. lia.
+  - rewrite IH by assumption. lia.
+Qed.
+
+Fixpoint run_ok (fb fd : Z * event -> Z) (evs : list (Z * event)) (b d : Z) : Prop :=
+  0 <= b /\ 0 <= d /\
+  match evs with
+  | [] => True
+  | oe :: rest => run_ok fb fd rest (b + fb oe) (d + fd oe)
+  end.
+
+Lemma run_ok_head fb fd evs b d : run_ok fb fd evs b d -> 0 <= b /\ 0 <= d.
+Proof. destruct evs; simpl; tauto. Qed.
+
+Section PrepFold.
+Variables br limit : Z.
+Hypothesis Hbr : 0 <= br.
+
+Definition frame (s : prep) := (p_rate s, p_rank s, p_owner s, p_pubkey s, p_comm s, p_vr s, p_wage s).
+
+Lemma apply_vote_frame ty a per s : frame (prep_apply_vote ty a per br s) = frame s.
+Proof.
+  unfold prep_apply_vote, frame. destruct ty; simpl;
+  match goal with |- context [if ?c then _ else _] => destruct c end; reflexivity.
+Qed.
+
+Lemma prep_step_frame k s oe : frame (prep_step br limit k s oe) = frame s.
+Proof.
+  destruct oe as [o [t st|ty from vs]]; simpl.
+  - destruct (N.eqb t k); reflexivity.
+  - apply fold_left_frame. intros s' v. unfold vote_step. cbv beta. unfold addr in *. destruct (N.eqb (fst v) k); [apply apply_vote_frame|reflexivity].
+Qed.
+
+Lemma prep_fold_frame k evs s : frame (fold_left (prep_step br limit k) evs s) = frame s.
+Proof. apply fold_left_frame. intros; apply prep_step_frame. Qed.
+
+Lemma apply_vote_bonded ty a per s :
+  p_bonded (prep_apply_vote ty a per br s) = p_bonded s + (if vtype_eqb ty VBond then a else 0).
+Proof.
+  unfold prep_apply_vote. destruct ty; simpl;
+  match goal with |- context [if ?c then _ else _] => destruct c end; simpl; lia.
+Qed.
+
+Lemma apply_vote_delegated ty a per s :
+  p_delegated (prep_apply_vote ty a per br s) = p_delegated s + (if vtype_eqb ty VDelegate then a else 0).
+Proof.
+  unfold prep_apply_vote. destruct ty; simpl;
+  match goal with |- context [if ?c then _ else _] => destruct c end; simpl; lia.
+Qed.
+
+Lemma apply_vote_accv ty a per s : p_accv (prep_apply_vote ty a per br s) = p_accv s + a * per.
+Proof.
+  unfold prep_apply_vote. destruct ty; simpl;
+  match goal with |- context [if ?c then _ else _] => destruct c end; simpl; lia.
+Qed.
+
+Lemma apply_vote_status ty a per s : p_status (prep_apply_vote ty a per br s) = p_status s.
+Proof.
+  unfold prep_apply_vote. destruct ty; simpl;
+  match goal with |- context [if ?c then _ else _] => destruct c end; reflexivity.
+Qed.
+
+Lemma prep_step_bonded k s oe :
+  p_bonded (prep_step br limit k s oe) = p_bonded s + ev_amount VBond k oe.
+Proof.
+  destruct oe as [o [t st|ty from vs]]; unfold ev_amount; simpl.
+  - destruct (N.eqb t k); simpl; lia.
+  - rewrite (fold_left_additive p_bonded (fun v => if vtype_eqb ty VBond then (if N.eqb (fst v) k then snd v else 0) else 0)).
+    + destruct (vtype_eqb ty VBond); [reflexivity|]. rewrite sumZ_zero; auto.
+    + intros s' v. unfold vote_step. cbv beta. unfold addr in *. destruct (N.eqb (fst v) k).
+      * apply apply_vote_bonded.
+      * destruct (vtype_eqb ty VBond); lia.
+Qed.
+
+Lemma prep_step_delegated k s oe :
+  p_delegated (prep_step br limit k s oe) = p_delegated s + ev_amount VDelegate k oe.
+Proof.
+  destruct oe as [o [t st|ty from vs]]; unfold ev_amount; simpl.
+  - destruct (N.eqb t k); simpl; lia.
+  - rewrite (fold_left_additive p_delegated (fun v => if vtype_eqb ty VDelegate then (if N.eqb (fst v) k then snd v else 0) else 0)).
+    + destruct (vtype_eqb ty VDelegate); [reflexivity|]. rewrite sumZ_zero; auto.
+    + intros s' v. unfold vote_step. cbv beta. unfold addr in *. destruct (N.eqb (fst v) k).
+      * apply apply_vote_delegated.
+      * destruct (vtype_eqb ty VDelegate); lia.
+Qed.
+
+(* all votes (bond and delegation) an event gives to k *)
+Definition ev_votes (k : addr) (oe : Z * event) : Z := ev_amount VBond k oe + ev_amount VDelegate k oe.
+
+Lemma ev_votes_eq k o ty from vs : ev_votes k (o, EVote ty from vs) = amount_to k vs.
+Proof. unfold ev_votes, ev_amount. simpl. destruct ty; simpl; lia. Qed.
+
+Lemma prep_step_accv k s oe :
+  p_accv (prep_step br limit k s oe) = p_accv s + ev_votes k oe * (limit - fst oe).
+Proof.
+  destruct oe as [o [t st|ty from vs]].
+  - unfold ev_votes, ev_amount. simpl. destruct (N.eqb t k); simpl; lia.
+  - rewrite ev_votes_eq. simpl.
+    rewrite (fold_left_additive p_accv (fun v => (if N.eqb (fst v) k then snd v else 0) * (limit - o))).
+    + unfold amount_to. rewrite sumZ_mul_r. reflexivity.
+    + intros s' v. unfold vote_step. cbv beta. unfold addr in *. destruct (N.eqb (fst v) k); [apply apply_vote_accv|lia].
+Qed.
+
+(* weighted votes for k over the term's events *)
+Definition wsum (k : addr) (evs : list (Z * event)) : Z :=
+  sumZ (fun oe => ev_votes k oe * (limit - fst oe)) evs.
+
+Lemma prep_fold_accv k evs s :
+  p_accv (fold_left (prep_step br limit k) evs s) = p_accv s + wsum k evs.
+Proof. apply fold_left_additive. intros; apply prep_step_accv. Qed.
+
+(* with distinct targets, a vote list touches a P-Rep at most once *)
+Lemma fold_vote_step_notin k ty o vs : forall s,
+  ~ In k (map fst vs) -> fold_left (vote_step br limit k ty o) vs s = s.
+Proof.
+  induction vs as [|[to a] vs IH]; intros s H; simpl; [reflexivity|].
+  unfold vote_step at 2. simpl. destruct (N.eqb to k) eqn:E.
+  - apply N.eqb_eq in E; subst. simpl in H. tauto.
+  - apply IH. simpl in H. tauto.
+Qed.
+
+Lemma fold_vote_step_in k ty o vs : forall s,
+  NoDup (map fst vs) -> In k (map fst vs) ->
+  fold_left (vote_step br limit k ty o) vs s = prep_apply_vote ty (amount_to k vs) (limit - o) br s.
+Proof.
+  induction vs as [|[to a] vs IH]; intros s Hnd Hin; simpl; [destruct Hin|].
+  inversion Hnd; subst. unfold vote_step at 2. unfold amount_to. simpl. destruct (N.eqb to k) eqn:E.
+  - apply N.eqb_eq in E; subst. rewrite fold_vote_step_notin by assumption.
+    fold (amount_to k vs). rewrite amount_to_notin by assumption. rewrite Z.add_0_r. reflexivity.
+  - fold (amount_to k vs). rewrite Z.add_0_l. apply IH; auto.
+    destruct Hin as [H|H]; [|assumption]. simpl in H. apply N.eqb_neq in E. congruence.
+Qed.
+
+(* ------------------------------------------------------------------ the accumulation invariant *)
+Lemma calc_power_bounds bonded voted :
+  0 <= bonded -> 0 <= voted -> 0 <= calc_power br bonded voted <= voted.
+Proof.
+  intros Hb Hv. unfold calc_power. destruct (br =? 0) eqn:E; [lia|].
+  assert (0 < br) by lia. rewrite big_div_pos by assumption.
+  assert (0 <= bonded * denom_in_rate / br) by (apply Z.div_pos; unfold denom_in_rate; lia).
+  lia.
+Qed.
+
+Definition pinv (o : Z) (s : prep) : Prop :=
+  0 <= p_bonded s /\ 0 <= p_voted s /\ p_power s = prep_calc_power br s /\
+  p_power s * (limit - o) <= p_accp s /\
+  (p_voted s - p_power s) * (limit - o) <= p_accv s - p_accp s.
+
+Lemma pinv_power s o : pinv o s -> 0 <= p_power s <= p_voted s.
+Proof.
+  intros (Hb & Hv & Hp & _). rewrite Hp. unfold prep_calc_power. apply calc_power_bounds; assumption.
+Qed.
+
+Lemma pinv_mono o o' s : pinv o s -> o <= o' -> o' <= limit -> pinv o' s.
+Proof.
+  intros H Ho Hl. pose proof (pinv_power _ _ H) as Hpw.
+  destruct H as (Hb & Hv & Hp & Ha & Hc). repeat split; try assumption; nia.
+Qed.
+
+Lemma pinv_set_status o st s : pinv o s -> pinv o (set_status st s).
+Proof. unfold pinv, prep_calc_power, p_voted. simpl. tauto. Qed.
+
+Lemma pinv_apply_vote o o' ty a s :
+  pinv o s -> o <= o' -> o' <= limit ->
+  0 <= p_bonded (prep_apply_vote ty a (limit - o') br s) ->
+  0 <= p_voted (prep_apply_vote ty a (limit - o') br s) ->
+  pinv o' (prep_apply_vote ty a (limit - o') br s).
+Proof.
+  intros H Ho Hl Hb' Hv'. pose proof (pinv_power _ _ H) as Hpw.
+  destruct H as (Hb & Hv & Hp & Ha & Hc).
+  unfold pinv. split; [assumption|]. split; [assumption|].
+  revert Hb' Hv'. unfold prep_apply_vote. cbv zeta.
+  set (p1 := match ty with VBond => set_bonded (p_bonded s + a) s | VDelegate => set_delegated (p_delegated s + a) s end).
+  set (p2 := set_accv (p_accv p1 + a * (limit - o')) p1).
+  assert (Hv2 : p_voted p2 = p_voted s + a) by (unfold p2, p1, p_voted; destruct ty; simpl; lia).
+  assert (Hpw2 : p_power p2 = p_power s) by (unfold p2, p1; destruct ty; reflexivity).
+  assert (Hap2 : p_accp p2 = p_accp s) by (unfold p2, p1; destruct ty; reflexivity).
+  assert (Hav2 : p_accv p2 = p_accv s + a * (limit - o')) by (unfold p2, p1; destruct ty; reflexivity).
+  assert (Hbd2 : p_bonded p2 = p_bonded p1) by reflexivity.
+  destruct (p_power p2 =? prep_calc_power br p2) eqn:E.
+  - intros Hb' Hv'. split; [lia|]. rewrite Hav2, Hap2, Hv2, Hpw2. rewrite Hv2 in Hv'. nia.
+  - intros Hb' Hv'.
+    set (pw := prep_calc_power br p2) in *.
+    assert (Hpw' : 0 <= pw <= p_voted p2).
+    { unfold pw, prep_calc_power. apply calc_power_bounds.
+      - simpl in Hb'. assumption.
+      - unfold p_voted in *. simpl in Hv'. assumption. }
+    set (X := set_accp (p_accp p2 + (pw - p_power p2) * (limit - o')) (set_power pw p2)).
+    assert (HX1 : p_power X = pw) by reflexivity.
+    assert (HX2 : p_accp X = p_accp p2 + (pw - p_power p2) * (limit - o')) by reflexivity.
+    assert (HX3 : p_accv X = p_accv p2) by reflexivity.
+    assert (HX4 : p_voted X = p_voted p2) by reflexivity.
+    assert (HX5 : prep_calc_power br X = pw) by reflexivity.
+    rewrite HX1, HX2, HX3, HX4, HX5, Hap2, Hav2, Hpw2. rewrite Hv2 in *.
+    split; [reflexivity|]. nia.
+Qed.
+
+Lemma prep_fold_inv k : forall evs s o,
+  offsets_ok o limit evs = true -> forallb event_ok evs = true ->
+  run_ok (ev_amount VBond k) (ev_amount VDelegate k) evs (p_bonded s) (p_delegated s) ->
+  o <= limit -> pinv o s ->
+  exists o', o' <= limit /\ pinv o' (fold_left (prep_step br limit k) evs s).
+Proof.
+  induction evs as [|[o' ev] evs IH]; intros s o Hoff Hev Hrun Hol Hinv; simpl.
+  - exists o; auto.
+  - simpl in Hoff. apply andb_true_iff in Hoff as [Hoff Hoff3]. apply andb_true_iff in Hoff as [Hoff1 Hoff2].
+    simpl in Hev. apply andb_true_iff in Hev as [Hev1 Hev2].
+    destruct Hrun as (_ & _ & Hrun).
+    rewrite <- (prep_step_bonded k s (o', ev)), <- (prep_step_delegated k s (o', ev)) in Hrun.
+    apply (IH _ o'); try assumption; try lia.
+    pose proof (run_ok_head _ _ _ _ _ Hrun) as [Hb' Hd'].
+    destruct ev as [t st|ty from vs]; simpl.
+    + destruct (N.eqb t k); [apply pinv_set_status|]; apply (pinv_mono o); auto; lia.
+    + unfold event_ok in Hev1. simpl in Hev1. apply nodupb_NoDup in Hev1.
+      destruct (in_dec N.eq_dec k (map fst vs)) as [Hin|Hnin].
+      * simpl in Hb', Hd'. rewrite fold_vote_step_in in * by assumption.
+        apply (pinv_apply_vote o); auto; try lia. unfold p_voted. lia.
+      * rewrite fold_vote_step_notin by assumption. apply (pinv_mono o); auto; lia.
+Qed.
+
+End PrepFold.
+
+(* ================================================================== the voters' side *)
+Definition ev_from (oe : Z * event) : option addr :=
+  match snd oe with EVote _ from _ => Some from | EEnable _ _ => None end.
+
+(* votes of kind ty that an event gives to k on behalf of voter v *)
+Definition ev_amount_from (v : addr) (ty : vtype) (k : addr) (oe : Z * event) : Z :=
+  match snd oe with
+  | EVote t from vs => if N.eqb from v then (if vtype_eqb t ty then amount_to k vs else 0) else 0
+  | EEnable _ _ => 0
+  end.
+
+Lemma sum_ev_amount_from (V : list addr) ty k oe :
+  NoDup V -> (forall from, ev_from oe = Some from -> In from V) ->
+  sumZ (fun v => ev_amount_from v ty k oe) V = ev_amount ty k oe.
+Proof.
+  intros Hnd Hin. destruct oe as [o [t st|t from vs]]; unfold ev_amount_from, ev_amount; simpl.
+  - apply sumZ_zero; auto.
+  - rewrite (sumZ_ext_in _ (fun v => if N.eqb v from then (if vtype_eqb t ty then amount_to k vs else 0) else 0)).
+    2:{ intros v _. rewrite (N.eqb_sym from v). reflexivity. }
+    rewrite sumZ_indicator by assumption.
+    assert (memb from V = true) as -> by (apply memb_In; apply Hin; reflexivity). reflexivity.
+Qed.
+
+Lemma getz_aset q k v (m : amap Z) : getz q (aset k v m) = if N.eqb q k then v else getz q m.
+Proof. unfold getz. rewrite aget_aset. destruct (N.eqb q k); reflexivity. Qed.
+
+Lemma amount_to_cons q to a vs : amount_to q ((to, a) :: vs) = (if N.eqb to q then a else 0) + amount_to q vs.
+Proof. reflexivity. Qed.
+
+Lemma apply_votes_spec : forall vs m m',
+  apply_votes m vs = Some m' -> (forall q, 0 <= getz q m) ->
+  forall q, getz q m' = getz q m + amount_to q vs /\ 0 <= getz q m'.
+Proof.
+  induction vs as [|[to a] vs IH]; intros m m' H Hm q; simpl in H.
+  - inversion H; subst. unfold amount_to; simpl. split; [lia|apply Hm].
+  - destruct (getz to m + a <? 0) eqn:E; [discriminate|].
+    assert (Hm1 : forall q, 0 <= getz q (aset to (getz to m + a) m)).
+    { intros q'. rewrite getz_aset. destruct (N.eqb q' to); [lia|apply Hm]. }
+    destruct (IH _ _ H Hm1 q) as [H1 H2]. split; [|assumption].
+    rewrite H1, getz_aset, amount_to_cons. rewrite (N.eqb_sym to q).
+    destruct (N.eqb q to) eqn:E2; [apply N.eqb_eq in E2; subst|]; lia.
+Qed.
+
+Lemma voter_run v k : forall evs d b,
+  (forall q, 0 <= getz q d) -> (forall q, 0 <= getz q b) ->
+  update_voting_one d b (events_of v evs) <> None ->
+  run_ok (ev_amount_from v VBond k) (ev_amount_from v VDelegate k) evs (getz k b) (getz k d).
+Proof.
+  induction evs as [|[o [t st|t from vs]] evs IH]; intros d b Hd Hb Hok.
+  - simpl. auto.
+  - simpl. split; [apply Hb|]. split; [apply Hd|].
+    unfold ev_amount_from at 3 4. simpl. rewrite !Z.add_0_r. apply IH; auto.
+  - simpl in Hok. simpl. split; [apply Hb|]. split; [apply Hd|].
+    unfold ev_amount_from at 3 4. simpl.
+    destruct (N.eqb from v) eqn:E.
+    + simpl in Hok. destruct t; simpl.
+      * destruct (apply_votes b vs) as [b'|] eqn:Eb; [|congruence].
+        pose proof (apply_votes_spec _ _ _ Eb Hb) as Hs.
+        rewrite Z.add_0_r. rewrite <- (proj1 (Hs k)). apply IH; auto. intros q; apply Hs.
+      * destruct (apply_votes d vs) as [d'|] eqn:Ed; [|congruence].
+        pose proof (apply_votes_spec _ _ _ Ed Hd) as Hs.
+        rewrite Z.add_0_r. rewrite <- (proj1 (Hs k)). apply IH; auto. intros q; apply Hs.
+    + rewrite !Z.add_0_r. apply IH; auto.
+Qed.
+
+Lemma run_ok_sum {A} (V : list A) (fb fd : A -> Z * event -> Z) : forall evs (b d : A -> Z),
+  (forall v, In v V -> run_ok (fb v) (fd v) evs (b v) (d v)) ->
+  run_ok (fun oe => sumZ (fun v => fb v oe) V) (fun oe => sumZ (fun v => fd v oe) V) evs (sumZ b V) (sumZ d V).
+Proof.
+  induction evs as [|oe evs IH]; intros b d H; simpl.
+  - split; [|split; [|exact I]]; apply sumZ_nonneg; intros v Hv; apply (H v Hv).
+  - split; [|split]; try (apply sumZ_nonneg; intros v Hv; apply (H v Hv)).
+    rewrite <- !sumZ_add. apply IH. intros v Hv. apply (H v Hv).
+Qed.
+
+Lemma run_ok_ext fb fd fb' fd' : forall evs b d,
+  (forall oe, In oe evs -> fb oe = fb' oe /\ fd oe = fd' oe) ->
+  run_ok fb fd evs b d -> run_ok fb' fd' evs b d.
+Proof.
+  induction evs as [|oe evs IH]; intros b d He H; simpl in *; [assumption|].
+  destruct H as (H1 & H2 & H3). split; [assumption|]. split; [assumption|].
+  destruct (He oe (or_introl eq_refl)) as [<- <-]. apply IH; auto.
+Qed.
+
+(* Abel summation: a quantity that is never negative accumulates to a non-negative total *)
+Lemma abel_nonneg limit fb fd : forall evs b d o acc,
+  run_ok fb fd evs b d -> offsets_ok o limit evs = true -> o <= limit ->
+  (b + d) * (limit - o) <= acc ->
+  0 <= acc + sumZ (fun oe => (fb oe + fd oe) * (limit - fst oe)) evs.
+Proof.
+  induction evs as [|[o' ev] evs IH]; intros b d o acc Hrun Hoff Hol Hacc; simpl in *.
+  - destruct Hrun as (Hb & Hd & _). nia.
+  - destruct Hrun as (Hb & Hd & Hrun).
+    apply andb_true_iff in Hoff as [Hoff Hoff3]. apply andb_true_iff in Hoff as [Hoff1 Hoff2].
+    rewrite Z.add_assoc. apply (IH (b + fb (o', ev)) (d + fd (o', ev)) o'); try assumption; try lia. nia.
+Qed.
+
+(* ------------------------------------------------------------------ accumulated votes of a voter *)
+Lemma voter_apply_getz per m v q :
+  getz q (voter_apply per m v) = getz q m + (if N.eqb (fst v) q then snd v else 0) * per.
+Proof.
+  destruct v as [to a]. unfold voter_apply. simpl. unfold getz at 2.
+  destruct (aget to m) eqn:E; rewrite getz_aset; rewrite (N.eqb_sym to q);
+  destruct (N.eqb q to) eqn:E2; try (apply N.eqb_eq in E2; subst; unfold getz; rewrite ?E); try lia.
+  - unfold getz. lia.
+  - unfold getz. lia.
+Qed.
+
+Lemma voter_apply_voting_getz vs per : forall m q,
+  getz q (voter_apply_voting vs per m) = getz q m + amount_to q vs * per.
+Proof.
+  unfold voter_apply_voting, amount_to. intros m q.
+  rewrite (fold_left_additive (getz q) (fun v => (if N.eqb (fst v) q then snd v else 0) * per)).
+  - rewrite sumZ_mul_r. reflexivity.
+  - intros; apply voter_apply_getz.
+Qed.
+
+Lemma voter_apply_voting_NoDup vs per : forall m,
+  NoDup (keys m) -> NoDup (keys (voter_apply_voting vs per m)).
+Proof.
+  unfold voter_apply_voting. induction vs as [|[to a] vs IH]; intros m H; simpl; [assumption|].
+  apply IH. unfold voter_apply. destruct (aget to m); apply keys_aset_NoDup; assumption.
+Qed.
+
+Definition ev_votes_from (v k : addr) (oe : Z * event) : Z :=
+  ev_amount_from v VBond k oe + ev_amount_from v VDelegate k oe.
+
+Lemma ev_votes_from_eq v k o ty from vs :
+  ev_votes_from v k (o, EVote ty from vs) = if N.eqb from v then amount_to k vs else 0.
+Proof. unfold ev_votes_from, ev_amount_from. simpl. destruct (N.eqb from v); destruct ty; simpl; lia. Qed.
+
+(* the closed form of a voter's accumulated votes for k *)
+Definition acc_votes (i : input) (v k : addr) : Z :=
+  (amount_to k (lookup_votes v (i_delegating i)) + amount_to k (lookup_votes v (i_bonding i))) * (i_limit i + 1)
+  + sumZ (fun oe => ev_votes_from v k oe * (i_limit i - fst oe)) (i_events i).
+
+Lemma voter_events_getz limit v k : forall evs m,
+  getz k (fold_left (fun m (e : Z * vtype * votes) => let '(o, _, vs) := e in voter_apply_voting vs (limit - o) m)
+                    (events_of v evs) m)
+  = getz k m + sumZ (fun oe => ev_votes_from v k oe * (limit - fst oe)) evs.
+Proof.
+  induction evs as [|[o [t st|t from vs]] evs IH]; intros m; simpl.
+  - lia.
+  - rewrite IH. unfold ev_votes_from, ev_amount_from. simpl. lia.
+  - rewrite ev_votes_from_eq. destruct (N.eqb from v); simpl.
+    + rewrite IH, voter_apply_voting_getz. lia.
+    + rewrite IH. lia.
+Qed.
+
+Lemma voter_acc_getz i v k : getz k (voter_acc i v) = acc_votes i v k.
+Proof.
+  unfold voter_acc, acc_votes, term_period. rewrite voter_events_getz, !voter_apply_voting_getz.
+  unfold getz at 1. simpl. lia.
+Qed.
+
+Lemma voter_acc_NoDup i v : NoDup (keys (voter_acc i v)).
+Proof.
+  unfold voter_acc.
+  set (m1 := voter_apply_voting _ _ (voter_apply_voting _ _ [])).
+  assert (H1 : NoDup (keys m1)) by (unfold m1; repeat apply voter_apply_voting_NoDup; constructor).
+  revert H1. generalize m1. generalize (events_of v (i_events i)).
+  induction l as [|[[o t] vs] l IH]; intros m Hm; simpl; [assumption|].
+  apply IH. apply voter_apply_voting_NoDup; assumption.
+Qed.
+
+(* ================================================================== loading the P-Reps *)
+Lemma fold_left_ext {S A} (f g : S -> A -> S) : (forall s a, f s a = g s a) ->
+  forall l s, fold_left f l s = fold_left g l s.
+Proof. intros H. induction l; intros s; simpl; [reflexivity|]. rewrite H. apply IHl. Qed.
+
+Lemma insert_by_perm x l : Permutation (insert_by x l) (x :: l).
+Proof.
+  induction l as [|y l IH]; simpl; [reflexivity|].
+  destruct (bigger x y); [reflexivity|].
+  rewrite IH. apply perm_swap.
+Qed.
+
+Lemma sort_preps_perm l : Permutation (sort_preps l) l.
+Proof.
+  induction l as [|x l IH]; simpl; [reflexivity|].
+  rewrite insert_by_perm. constructor. assumption.
+Qed.
+
+Lemma NoDup_app_l {A} (l1 l2 : list A) : NoDup (l1 ++ l2) -> NoDup l1.
+Proof.
+  induction l1; simpl; intros H; [constructor|].
+  inversion H; subst. constructor; auto. intros Hin. apply H2. apply in_or_app; auto.
+Qed.
+
+Lemma NoDup_firstn {A} n (l : list A) : NoDup l -> NoDup (firstn n l).
+Proof.
+  intros H. rewrite <- (firstn_skipn n l) in H. apply NoDup_app_l in H. assumption.
+Qed.
+
+Lemma In_firstn {A} n (l : list A) x : In x (firstn n l) -> In x l.
+Proof. intros H. rewrite <- (firstn_skipn n l). apply in_or_app; auto. Qed.
+
+Definition base_prep (br : Z) (v : votedrec) : prep :=
+  prep_update_power br (new_prep (v_addr v) (v_status v) (v_delegated v) (v_bonded v) (v_rate v) (v_pubkey v)).
+
+Definition add_voted (br : Z) (pi : pinfo) (v : votedrec) : pinfo :=
+  pi_add br (v_addr v) (v_status v) (v_delegated v) (v_bonded v) (v_rate v) (v_pubkey v) pi.
+
+Lemma load_fold br : forall voted pi,
+  NoDup (map v_addr voted) -> (forall v, In v voted -> ~ In (v_addr v) (keys (pi_preps pi))) ->
+  let pi' := fold_left (add_voted br) voted pi in
+  keys (pi_preps pi') = keys (pi_preps pi) ++ map v_addr voted
+  /\ (forall v, In v voted -> aget (v_addr v) (pi_preps pi') = Some (base_prep br v))
+  /\ (forall k, ~ In k (map v_addr voted) -> aget k (pi_preps pi') = aget k (pi_preps pi))
+  /\ pi_rank pi' = pi_rank pi /\ pi_total pi' = pi_total pi.
+Proof.
+  induction voted as [|v voted IH]; intros pi Hnd Hnotin; simpl.
+  - rewrite app_nil_r. repeat split; auto. intros v [].
+  - inversion Hnd; subst.
+    assert (Hk1 : keys (pi_preps (add_voted br pi v)) = keys (pi_preps pi) ++ [v_addr v]).
+    { unfold add_voted, pi_add. simpl. apply keys_aset_notin. apply Hnotin. left; reflexivity. }
+    destruct (IH (add_voted br pi v) H2) as (K1 & K2 & K3 & K4 & K5).
+    { intros v' Hv'. rewrite Hk1. intros Hin. apply in_app_or in Hin as [Hin|[Hin|[]]].
+      - apply (Hnotin v' (or_intror Hv')); assumption.
+      - apply H1. rewrite Hin. apply in_map; assumption. }
+    split; [rewrite K1, Hk1, <- app_assoc; reflexivity|].
+    split; [|split; [|split; [rewrite K4; reflexivity|rewrite K5; reflexivity]]].
+    + intros v' [->|Hv']; [|apply K2; assumption].
+      rewrite K3 by assumption. unfold add_voted, pi_add. simpl. apply aget_aset_same.
+    + intros k Hk. rewrite K3 by tauto. unfold add_voted, pi_add. simpl.
+      apply aget_aset_other. intros ->. apply Hk. left; reflexivity.
+Qed.
+
+(* set_ranks only writes rank fields *)
+Definition rank_only (g : prep -> prep) : Prop := g = (fun p => p) \/ exists r, g = set_rank r.
+
+Lemma set_ranks_get ord : forall idx m k,
+  exists g, rank_only g /\ aget k (set_ranks idx ord m) = option_map g (aget k m).
+Proof.
+  induction ord as [|x ord IH]; intros idx m k; simpl.
+  - exists (fun p => p). split; [left; reflexivity|]. destruct (aget k m); reflexivity.
+  - destruct (IH (idx + 1) (update_key (p_owner x) (set_rank idx) m) k) as (g & Hg & He).
+    rewrite He, aget_update_key. destruct (N.eqb k (p_owner x)) eqn:E.
+    + apply N.eqb_eq in E; subst.
+      destruct Hg as [->|[r ->]].
+      * exists (set_rank idx). split; [right; eauto|]. destruct (aget (p_owner x) m); reflexivity.
+      * exists (set_rank r). split; [right; eauto|]. destruct (aget (p_owner x) m); reflexivity.
+    + exists g. split; [assumption|reflexivity].
+Qed.
+
+Lemma keys_set_ranks ord : forall idx m, keys (set_ranks idx ord m) = keys m.
+Proof.
+  induction ord as [|x ord IH]; intros idx m; simpl; [reflexivity|].
+  rewrite IH. apply keys_update_key.
+Qed.
+
+Lemma all_vals_set_ranks (P : prep -> Prop) ord : forall idx m,
+  (forall r p, P p -> P (set_rank r p)) -> all_vals P m -> all_vals P (set_ranks idx ord m).
+Proof.
+  induction ord as [|x ord IH]; intros idx m Hr Hm; simpl; [assumption|].
+  apply IH; auto. apply all_vals_update_key; auto.
+Qed.
+
+(* ================================================================== well-formed terms, unpacked *)
+Definition votes_wf (vs : votes) : Prop :=
+  NoDup (map fst vs) /\ forall x, In x vs -> 0 < snd x.
+
+Definition voting_wf (l : list (addr * votes)) : Prop :=
+  NoDup (keys l) /\ forall e, In e l -> snd e <> [] /\ votes_wf (snd e).
+
+Record wf_input (i : input) : Prop := {
+  wf_rprep : 0 <= i_rprep i <= denom_in_rate;
+  wf_rwage : 0 <= i_rwage i <= denom_in_rate;
+  wf_br : 0 <= i_br i <= denom_in_rate;
+  wf_limit : 0 <= i_limit i;
+  wf_elected : 0 <= i_elected i;
+  wf_iglobal : 0 <= i_iglobal i;
+  wf_minbond : 0 <= i_minbond i;
+  wf_voted_nd : NoDup (map v_addr (i_voted i));
+  wf_voted : forall v, In v (i_voted i) -> 0 <= v_rate v <= denom_in_rate /\ 0 <= v_delegated v /\ 0 <= v_bonded v;
+  wf_delegating : voting_wf (i_delegating i);
+  wf_bonding : voting_wf (i_bonding i);
+  wf_cons : cons_ok i = true;
+  wf_offsets : offsets_ok 0 (i_limit i) (i_events i) = true;
+  wf_events : forallb event_ok (i_events i) = true }.
+
+Lemma voting_ok_wf l : voting_ok l = true -> voting_wf l.
+Proof.
+  unfold voting_ok. intros H. apply andb_true_iff in H as [H1 H2]. split.
+  - apply nodupb_NoDup; assumption.
+  - intros e He. rewrite forallb_forall in H2. specialize (H2 e He).
+    unfold votes_ok in H2. apply andb_true_iff in H2 as [H2 H4]. apply andb_true_iff in H2 as [H2 H3].
+    split; [destruct (snd e); [discriminate|congruence]|].
+    split; [apply nodupb_NoDup; assumption|].
+    intros x Hx. rewrite forallb_forall in H4. specialize (H4 x Hx). lia.
+Qed.
+
+Lemma wf_inputb_wf i : wf_inputb i = true -> wf_input i.
+Proof.
+  unfold wf_inputb, rate_ok. intros H.
+  repeat match type of H with (_ && _ = true) => apply andb_true_iff in H; let H' := fresh "H" in destruct H as [H H'] end.
+  constructor; try lia; try assumption.
+  - apply nodupb_NoDup; assumption.
+  - intros v Hv. rewrite forallb_forall in H5. specialize (H5 v Hv). unfold voted_ok, rate_ok in H5. lia.
+  - apply voting_ok_wf; assumption.
+  - apply voting_ok_wf; assumption.
+Qed.
+
+Lemma NoDup_app_intro {A} (l1 l2 : list A) :
+  NoDup l1 -> NoDup l2 -> (forall x, In x l1 -> ~ In x l2) -> NoDup (l1 ++ l2).
+Proof.
+  induction l1; simpl; intros H1 H2 H; [assumption|].
+  inversion H1; subst. constructor.
+  - intros Hin. apply in_app_or in Hin as [Hin|Hin]; [tauto|]. apply (H a); auto.
+  - apply IHl1; auto.
+Qed.
+
+Section Term.
+Variable i : input.
+Hypothesis WF : wf_input i.
+
+Let br := i_br i.
+Let L := i_limit i.
+Let E := i_elected i.
+Let evs := i_events i.
+Let PI0 := load_prep_info i.
+Let PI1 := events_applied i.
+Let PI2 := rewards_calculated i.
+Let R := elected_keys E PI0.
+Let V := voters i.
+Let T := budget_prep i.
+Let W := budget_wage i.
+
+Lemma Hbr0 : 0 <= br.
+Proof. apply (wf_br i WF). Qed.
+
+(* ------------------------------------------------------------------ loadPRepInfo *)
+Let PIa := fold_left (add_voted br) (i_voted i) (mkPinfo [] 0 []).
+
+Lemma load_unfold : PI0 = pi_init_accumulated E L (pi_sort PIa).
+Proof. reflexivity. Qed.
+
+Lemma PIa_facts :
+  keys (pi_preps PIa) = map v_addr (i_voted i)
+  /\ (forall v, In v (i_voted i) -> aget (v_addr v) (pi_preps PIa) = Some (base_prep br v)).
+Proof.
+  destruct (load_fold br (i_voted i) (mkPinfo [] 0 []) (wf_voted_nd i WF)) as (K1 & K2 & _).
+  - intros v _ [].
+  - split; [exact K1|exact K2].
+Qed.
+
+Lemma PIa_entries k p : In (k, p) (pi_preps PIa) -> exists v, In v (i_voted i) /\ v_addr v = k /\ p = base_prep br v.
+Proof.
+  destruct PIa_facts as [K1 K2]. intros Hin.
+  assert (Hnd : NoDup (keys (pi_preps PIa))) by (rewrite K1; apply (wf_voted_nd i WF)).
+  assert (Hk : In k (keys (pi_preps PIa))) by (change k with (fst (k, p)); apply in_map; assumption).
+  rewrite K1 in Hk. apply in_map_iff in Hk as (v & Hv1 & Hv2). exists v. split; [assumption|]. split; [assumption|].
+  apply In_aget in Hin; [|assumption]. rewrite <- Hv1, (K2 v Hv2) in Hin. congruence.
+Qed.
+
+Lemma rank_perm : Permutation (pi_rank PI0) (map v_addr (i_voted i)).
+Proof.
+  rewrite load_unfold. unfold pi_init_accumulated, pi_sort. simpl.
+  rewrite sort_preps_perm. rewrite map_map.
+  destruct PIa_facts as [K1 _]. rewrite <- K1. unfold keys.
+  erewrite map_ext_in; [reflexivity|].
+  intros [k p] Hin. simpl. apply PIa_entries in Hin as (v & _ & <- & ->). reflexivity.
+Qed.
+
+Lemma rank_NoDup : NoDup (pi_rank PI0).
+Proof. eapply Permutation_NoDup; [symmetry; apply rank_perm|apply (wf_voted_nd i WF)]. Qed.
+
+Lemma R_NoDup : NoDup R.
+Proof. apply NoDup_firstn. apply rank_NoDup. Qed.
+
+Lemma R_voted k : In k R -> In k (map v_addr (i_voted i)).
+Proof. intros H. apply In_firstn in H. eapply Permutation_in; [apply rank_perm|assumption]. Qed.
+
+Lemma R_length : Z.of_nat (length R) <= E.
+Proof.
+  unfold R, elected_keys, elected_n. rewrite firstn_length. pose proof (wf_elected i WF). fold E in H. lia.
+Qed.
+
+(* the P-Rep object an elected P-Rep starts the term with *)
+Lemma load_get k : In k R ->
+  exists v g, In v (i_voted i) /\ v_addr v = k /\ rank_only g /\
+    aget k (pi_preps PI0) = Some (prep_init_accumulated (L + 1) (g (base_prep br v))).
+Proof.
+  intros Hk. pose proof (R_voted k Hk) as Hv. apply in_map_iff in Hv as (v & Hv1 & Hv2).
+  destruct PIa_facts as [K1 K2].
+  destruct (set_ranks_get (sort_preps (map snd (pi_preps PIa))) 0 (pi_preps PIa) k) as (g & Hg & He).
+  exists v, g. split; [assumption|]. split; [assumption|]. split; [assumption|].
+  rewrite load_unfold. unfold pi_init_accumulated. simpl.
+  rewrite aget_fold_update by (apply R_NoDup).
+  assert (memb k (elected_keys E (pi_sort PIa)) = true) as ->.
+  { apply memb_In. exact Hk. }
+  unfold pi_sort. simpl. fold br. rewrite He. rewrite <- Hv1, (K2 v Hv2). reflexivity.
+Qed.
+
+Lemma rewards_zero_base v : rewards_zero (base_prep br v).
+Proof. repeat split. Qed.
+
+Lemma PI0_inv : all_vals rewards_zero (pi_preps PI0) /\ NoDup (keys (pi_preps PI0)).
+Proof.
+  rewrite load_unfold. unfold pi_init_accumulated. simpl. split.
+  - apply all_vals_fold_update; [|intros p Hp; exact Hp].
+    apply all_vals_set_ranks; [intros r p Hp; exact Hp|].
+    intros k p Hk. apply aget_In in Hk. apply PIa_entries in Hk as (v & _ & _ & ->). apply rewards_zero_base.
+  - rewrite keys_fold_update. unfold pi_sort. simpl. rewrite keys_set_ranks.
+    destruct PIa_facts as [K1 _]. rewrite K1. apply (wf_voted_nd i WF).
+Qed.
+
+(* ------------------------------------------------------------------ processEvents *)
+Lemma PI1_preps : pi_preps PI1 = pi_preps (fold_left (process_event br L) evs PI0).
+Proof. reflexivity. Qed.
+
+Lemma PI1_rank : pi_rank PI1 = pi_rank PI0.
+Proof. unfold PI1, events_applied, pi_update_total. simpl. apply process_events_rank. Qed.
+
+Lemma PI1_inv : all_vals rewards_zero (pi_preps PI1) /\ NoDup (keys (pi_preps PI1)).
+Proof.
+  rewrite PI1_preps. apply process_events_inv.
+  - intros; apply rewards_zero_apply_vote; assumption.
+  - intros st p Hp; exact Hp.
+  - intros; repeat split.
+  - apply PI0_inv.
+Qed.
+
+Lemma PI1_get k s : aget k (pi_preps PI0) = Some s ->
+  aget k (pi_preps PI1) = Some (fold_left (prep_step br L k) evs s).
+Proof. intros H. rewrite PI1_preps. apply process_events_get; assumption. Qed.
+
+Lemma PI1_elected : elected_keys E PI1 = R.
+Proof. unfold elected_keys. rewrite PI1_rank. reflexivity. Qed.
+
+Lemma PI1_total : pi_total PI1 = sumZ (accp_of (pi_preps PI1)) R.
+Proof.
+  unfold PI1 at 1, events_applied, pi_update_total. simpl.
+  unfold elected_keys. rewrite process_events_rank. reflexivity.
+Qed.
+
+(* ------------------------------------------------------------------ the voters *)
+Lemma keys_filter_nonempty (l : list (addr * votes)) :
+  voting_wf l -> map fst (filter (fun e => nonempty (snd e)) l) = keys l.
+Proof.
+  intros [_ H]. unfold keys. induction l as [|[k vs] l IH]; simpl; [reflexivity|].
+  destruct (H (k, vs) (or_introl eq_refl)) as [Hne _]. simpl in Hne.
+  destruct vs; [congruence|]. simpl. f_equal. apply IH. intros e' He'. apply H. right; assumption.
+Qed.
+
+Lemma V_NoDup : NoDup V.
+Proof.
+  unfold V, voters.
+  assert (H1 : NoDup (voters1 i)).
+  { unfold voters1. rewrite keys_filter_nonempty by apply (wf_delegating i WF). apply (wf_delegating i WF). }
+  assert (H2 : NoDup (voters2 i)).
+  { unfold voters2. apply NoDup_filter. rewrite keys_filter_nonempty by apply (wf_bonding i WF). apply (wf_bonding i WF). }
+  assert (H3 : NoDup (voters3 i)) by (unfold voters3; apply NoDup_filter, dedup_NoDup).
+  apply NoDup_app_intro; [assumption|apply NoDup_app_intro; try assumption|].
+  - intros x Hx Hin. unfold voters3 in Hin. apply filter_In in Hin as [_ Hin].
+    apply negb_true_iff, memb_false in Hin. apply Hin. apply in_or_app; auto.
+  - intros x Hx Hin. apply in_app_or in Hin as [Hin|Hin].
+    + unfold voters2 in Hin. apply filter_In in Hin as [_ Hin].
+      apply negb_true_iff, memb_false in Hin. tauto.
+    + unfold voters3 in Hin. apply filter_In in Hin as [_ Hin].
+      apply negb_true_iff, memb_false in Hin. apply Hin. apply in_or_app; auto.
+Qed.
+
+Lemma V_delegating v : In v (keys (i_delegating i)) -> In v V.
+Proof.
+  intros H. unfold V, voters. apply in_or_app; left. unfold voters1.
+  rewrite keys_filter_nonempty by apply (wf_delegating i WF). assumption.
+Qed.
+
+Lemma V_bonding v : In v (keys (i_bonding i)) -> In v V.
+Proof.
+  intros H. unfold V, voters. destruct (memb v (voters1 i)) eqn:E1.
+  - apply in_or_app; left. apply memb_In; assumption.
+  - apply in_or_app; right. apply in_or_app; left. unfold voters2. apply filter_In. split.
+    + rewrite keys_filter_nonempty by apply (wf_bonding i WF). assumption.
+    + rewrite E1. reflexivity.
+Qed.
+
+Lemma V_from oe from : In oe evs -> ev_from oe = Some from -> In from V.
+Proof.
+  intros Hin Hf.
+  assert (Hfr : In from (event_froms evs)).
+  { clear -Hin Hf. induction evs as [|[o [t st|t f vs]] l IH]; simpl in *; [tauto| |].
+    - destruct Hin as [<-|Hin]; [discriminate|auto].
+    - destruct Hin as [<-|Hin]; [inversion Hf; auto|auto]. }
+  unfold V, voters. destruct (memb from (voters1 i ++ voters2 i)) eqn:E1.
+  - apply memb_In in E1. rewrite app_assoc. apply in_or_app; left; assumption.
+  - rewrite app_assoc. apply in_or_app; right. unfold voters3. apply filter_In. split.
+    + apply dedup_In. assumption.
+    + rewrite E1. reflexivity.
+Qed.
+
+(* ------------------------------------------------------------------ vote totals never negative *)
+Hypothesis UV : update_voting_ok i = true.
+
+Let D := i_delegating i.
+Let B := i_bonding i.
+
+Lemma lookup_wf l v : voting_wf l -> votes_wf (lookup_votes v l).
+Proof.
+  intros [Hnd H]. unfold lookup_votes. destruct (aget v l) eqn:Eq0.
+  - apply aget_In in Eq0. apply (H _ Eq0).
+  - split; [constructor|intros x []].
+Qed.
+
+Lemma getz_nonneg_wf vs q : votes_wf vs -> 0 <= getz q vs.
+Proof.
+  intros [_ H]. unfold getz. destruct (aget q vs) eqn:Eq0; [|lia].
+  apply aget_In in Eq0. specialize (H _ Eq0). simpl in H. lia.
+Qed.
+
+Lemma events_of_nil v : forall l, ~ In v (event_froms l) -> events_of v l = [].
+Proof.
+  induction l as [|[o [t st|t f vs]] l IH]; simpl; intros H; auto.
+  destruct (N.eqb f v) eqn:Eq0; [apply N.eqb_eq in Eq0; subst; tauto|]. apply IH. tauto.
+Qed.
+
+Lemma uv_voter v : update_voting_one (lookup_votes v D) (lookup_votes v B) (events_of v evs) <> None.
+Proof.
+  destruct (in_dec N.eq_dec v (event_froms evs)) as [Hin|Hnin].
+  - unfold update_voting_ok in UV. rewrite forallb_forall in UV.
+    specialize (UV v (proj2 (dedup_In v _) Hin)). fold D B evs in UV.
+    destruct (update_voting_one _ _ _); congruence.
+  - rewrite events_of_nil by assumption. simpl. congruence.
+Qed.
+
+Lemma voter_run_ok v k :
+  run_ok (ev_amount_from v VBond k) (ev_amount_from v VDelegate k) evs
+         (getz k (lookup_votes v B)) (getz k (lookup_votes v D)).
+Proof.
+  apply voter_run.
+  - intros q. apply getz_nonneg_wf, lookup_wf, (wf_delegating i WF).
+  - intros q. apply getz_nonneg_wf, lookup_wf, (wf_bonding i WF).
+  - apply uv_voter.
+Qed.
+
+Lemma lookup_match {A} v l (f : votes -> A) :
+  f (lookup_votes v l) = match aget v l with Some vs => f vs | None => f [] end.
+Proof. unfold lookup_votes. destruct (aget v l); reflexivity. Qed.
+
+Lemma sum_lookup l k :
+  voting_wf l -> (forall v, In v (keys l) -> In v V) ->
+  sumZ (fun v => getz k (lookup_votes v l)) V = sum_votes_to k l.
+Proof.
+  intros [Hnd Hl] Hin. unfold sum_votes_to.
+  rewrite (sumZ_entries_reindex (fun _ vs => getz k vs) l V Hnd V_NoDup).
+  - apply sumZ_ext_in. intros v _. rewrite (lookup_match v l (getz k)). reflexivity.
+  - intros v vs Hvs Hnv. exfalso. apply Hnv, Hin. change v with (fst (v, vs)). apply in_map; assumption.
+Qed.
+
+Lemma find_voted v : In v (i_voted i) -> find (fun v' => N.eqb (v_addr v') (v_addr v)) (i_voted i) = Some v.
+Proof.
+  pose proof (wf_voted_nd i WF) as Hnd. revert Hnd. induction (i_voted i) as [|x l IH]; simpl; intros Hnd Hin; [tauto|].
+  inversion Hnd; subst. destruct Hin as [->|Hin].
+  - rewrite N.eqb_refl. reflexivity.
+  - destruct (N.eqb (v_addr x) (v_addr v)) eqn:Eq; [|auto].
+    apply N.eqb_eq in Eq. exfalso. apply H1. rewrite Eq. apply in_map; assumption.
+Qed.
+
+Lemma voted_amounts_in v : In v (i_voted i) -> voted_amounts i (v_addr v) = (v_delegated v, v_bonded v).
+Proof. intros H. unfold voted_amounts. rewrite find_voted by assumption. reflexivity. Qed.
+
+Lemma sum_votes_to_notin k l : ~ In k (targets l) -> sum_votes_to k l = 0.
+Proof.
+  intros H. apply sumZ_zero. intros [v vs] Hin. simpl. unfold getz.
+  destruct (aget k vs) eqn:Eq; [|reflexivity]. exfalso. apply H.
+  unfold targets. apply in_flat_map. exists (v, vs). split; [assumption|]. simpl.
+  apply aget_In_keys. eauto.
+Qed.
+
+Lemma cons_all k : cons_at i k = true.
+Proof.
+  pose proof (wf_cons i WF) as Hc. unfold cons_ok in Hc. rewrite forallb_forall in Hc.
+  destruct (in_dec N.eq_dec k (map v_addr (i_voted i) ++ targets D ++ targets B)) as [Hin|Hnin]; [auto|].
+  assert (H1 : ~ In k (map v_addr (i_voted i))) by (intros H; apply Hnin, in_or_app; auto).
+  assert (H2 : ~ In k (targets D)) by (intros H; apply Hnin, in_or_app; right; apply in_or_app; auto).
+  assert (H3 : ~ In k (targets B)) by (intros H; apply Hnin, in_or_app; right; apply in_or_app; auto).
+  unfold cons_at. fold D B. rewrite !sum_votes_to_notin by assumption.
+  unfold voted_amounts. destruct (find _ _) eqn:Ef; [|reflexivity].
+  apply find_some in Ef as [Ef1 Ef2]. apply N.eqb_eq in Ef2. exfalso. apply H1. rewrite <- Ef2. apply in_map; assumption.
+Qed.
+
+Lemma sum_delegated k : sumZ (fun v => getz k (lookup_votes v D)) V = fst (voted_amounts i k).
+Proof.
+  rewrite sum_lookup; [|apply (wf_delegating i WF)|apply V_delegating].
+  pose proof (cons_all k) as H. unfold cons_at in H. fold D in H. lia.
+Qed.
+
+Lemma sum_bonded k : sumZ (fun v => getz k (lookup_votes v B)) V = snd (voted_amounts i k).
+Proof.
+  rewrite sum_lookup; [|apply (wf_bonding i WF)|apply V_bonding].
+  pose proof (cons_all k) as H. unfold cons_at in H. fold B in H. lia.
+Qed.
+
+(* the votes recorded for any address never go negative during the term *)
+Lemma prep_run_ok k :
+  run_ok (ev_amount VBond k) (ev_amount VDelegate k) evs (snd (voted_amounts i k)) (fst (voted_amounts i k)).
+Proof.
+  rewrite <- sum_bonded, <- sum_delegated.
+  apply (run_ok_ext (fun oe => sumZ (fun v => ev_amount_from v VBond k oe) V)
+                    (fun oe => sumZ (fun v => ev_amount_from v VDelegate k oe) V)).
+  - intros oe Hoe. split; apply sum_ev_amount_from; try apply V_NoDup; intros from Hf; apply (V_from oe); assumption.
+  - apply (run_ok_sum V (fun v => ev_amount_from v VBond k) (fun v => ev_amount_from v VDelegate k)).
+    intros v _. apply voter_run_ok.
+Qed.
+
+(* ------------------------------------------------------------------ accumulated votes *)
+Lemma acc_votes_nonneg v k : 0 <= acc_votes i v k.
+Proof.
+  unfold acc_votes. fold D B L evs.
+  pose proof (voter_run_ok v k) as Hrun.
+  pose proof (lookup_wf D v (wf_delegating i WF)) as [HD _].
+  pose proof (lookup_wf B v (wf_bonding i WF)) as [HB _].
+  rewrite (getz_amount_to k _ HD), (getz_amount_to k _ HB) in Hrun.
+  pose proof (run_ok_head _ _ _ _ _ Hrun) as [Hb Hd].
+  pose proof (wf_limit i WF) as Hl. fold L in Hl.
+  apply (abel_nonneg L _ _ evs _ _ 0 _ Hrun); [apply (wf_offsets i WF)|lia|nia].
+Qed.
+
+Lemma sum_acc_votes k :
+  sumZ (fun v => acc_votes i v k) V
+  = (fst (voted_amounts i k) + snd (voted_amounts i k)) * (L + 1) + wsum L k evs.
+Proof.
+  unfold acc_votes. fold D B L evs. rewrite sumZ_add, sumZ_mul_r, sumZ_add.
+  rewrite (sumZ_ext_in (fun v => amount_to k (lookup_votes v D)) (fun v => getz k (lookup_votes v D))).
+  2:{ intros v _. symmetry. apply getz_amount_to. apply (lookup_wf D v (wf_delegating i WF)). }
+  rewrite (sumZ_ext_in (fun v => amount_to k (lookup_votes v B)) (fun v => getz k (lookup_votes v B))).
+  2:{ intros v _. symmetry. apply getz_amount_to. apply (lookup_wf B v (wf_bonding i WF)). }
+  rewrite sum_delegated, sum_bonded. f_equal.
+  rewrite sumZ_swap. unfold wsum. apply sumZ_ext_in. intros oe Hoe.
+  rewrite sumZ_mul_r. f_equal. unfold ev_votes_from, ev_votes. rewrite sumZ_add.
+  rewrite !sum_ev_amount_from; try apply V_NoDup; try (intros from Hf; apply (V_from oe); assumption). reflexivity.
+Qed.
+
+(* ------------------------------------------------------------------ an elected P-Rep at the end of the events *)
+Lemma elected_final k : In k R ->
+  exists s, aget k (pi_preps PI1) = Some s
+    /\ 0 <= p_accp s /\ p_accp s <= p_accv s
+    /\ rewards_zero s /\ 0 <= p_rate s <= denom_in_rate
+    /\ sumZ (fun v => acc_votes i v k) V = p_accv s.
+Proof.
+  intros Hk. destruct (load_get k Hk) as (v & g & Hv & Hvk & Hg & Hget).
+  set (s0 := prep_init_accumulated (L + 1) (g (base_prep br v))) in *.
+  pose proof (wf_voted i WF v Hv) as (Hrate & Hdel & Hbon).
+  pose proof (wf_limit i WF) as Hl. fold L in Hl.
+  assert (Hs0 : p_bonded s0 = v_bonded v /\ p_delegated s0 = v_delegated v /\ p_rate s0 = v_rate v
+                /\ p_power s0 = calc_power br (v_bonded v) (v_delegated v + v_bonded v)
+                /\ p_accv s0 = (v_delegated v + v_bonded v) * (L + 1)
+                /\ p_accp s0 = calc_power br (v_bonded v) (v_delegated v + v_bonded v) * (L + 1)).
+  { unfold s0. destruct Hg as [->|[r ->]]; repeat split. }
+  destruct Hs0 as (Hb0 & Hd0 & Hr0 & Hp0 & Hav0 & Hap0).
+  pose proof (calc_power_bounds br Hbr0 (v_bonded v) (v_delegated v + v_bonded v) Hbon ltac:(lia)) as Hpw.
+  assert (Hinv0 : pinv br L 0 s0).
+  { unfold pinv, prep_calc_power, p_voted. rewrite Hb0, Hd0, Hp0, Hav0, Hap0.
+    repeat split; try lia; nia. }
+  pose proof (prep_run_ok k) as Hrun. rewrite <- Hvk, (voted_amounts_in v Hv) in Hrun. simpl in Hrun.
+  rewrite <- Hb0, <- Hd0 in Hrun. rewrite Hvk in Hrun.
+  destruct (prep_fold_inv br L Hbr0 k evs s0 0 (wf_offsets i WF) (wf_events i WF) Hrun Hl Hinv0) as (o' & Ho' & Hinv).
+  pose proof (prep_fold_frame br L k evs s0) as Hfr. unfold frame in Hfr.
+  pose proof (prep_fold_accv br L k evs s0) as Hacc.
+  pose proof (PI1_get k s0 Hget) as Hget1.
+  set (sk := fold_left (prep_step br L k) evs s0) in *.
+  exists sk. split; [assumption|].
+  pose proof (pinv_power br L Hbr0 _ _ Hinv) as Hpw'.
+  destruct Hinv as (_ & _ & _ & Ha & Hc).
+  split; [nia|]. split; [nia|].
+  assert (F1 : p_rate sk = p_rate s0) by congruence.
+  assert (F5 : p_comm sk = p_comm s0) by congruence.
+  assert (F6 : p_vr sk = p_vr s0) by congruence.
+  assert (F7 : p_wage sk = p_wage s0) by congruence.
+  split; [|split].
+  - unfold rewards_zero. rewrite F5, F6, F7. unfold s0. destruct Hg as [->|[r ->]]; repeat split.
+  - rewrite F1, Hr0. assumption.
+  - rewrite sum_acc_votes, Hacc, Hav0. rewrite <- Hvk, (voted_amounts_in v Hv). simpl. rewrite Hvk. reflexivity.
+Qed.
+
+(* ------------------------------------------------------------------ budgets *)
+Lemma rate_mul_bounds r x : 0 <= r <= denom_in_rate -> 0 <= x -> 0 <= rate_mul r x <= x.
+Proof.
+  intros Hr Hx. unfold rate_mul, denom_in_rate in *.
+  rewrite Z.quot_div_nonneg by nia. split; [apply Z.div_pos; nia|].
+  apply Z.div_le_upper_bound; nia.
+Qed.
+
+Lemma fund_nonneg x : 0 <= x -> 0 <= fund_to_period_iscore x (term_period L).
+Proof.
+  intros Hx. unfold fund_to_period_iscore, term_period, iscore_icx_ratio, month_block.
+  pose proof (wf_limit i WF) as Hl. fold L in Hl.
+  rewrite big_div_pos by lia. apply Z.div_pos; nia.
+Qed.
+
+Lemma T_nonneg : 0 <= T.
+Proof.
+  apply fund_nonneg. unfold iprep_amount. apply rate_mul_bounds; [apply (wf_rprep i WF)|apply (wf_iglobal i WF)].
+Qed.
+
+Lemma W_nonneg : 0 <= W.
+Proof.
+  apply fund_nonneg. unfold iwage_amount. apply rate_mul_bounds; [apply (wf_rwage i WF)|apply (wf_iglobal i WF)].
+Qed.
+
+(* ------------------------------------------------------------------ processPrepReward *)
+Let total := pi_total PI1.
+Let per := big_div W E.
+Let g := fun p => if is_rewardable E p then prep_calculate_reward T total (i_minbond i) per p else p.
+
+Lemma PI2_preps : pi_preps PI2 = fold_left (fun m k => update_key k g m) R (pi_preps PI1).
+Proof.
+  unfold PI2, rewards_calculated, pi_calculate_reward, pi_with_preps. cbn [pi_preps].
+  change (events_applied i) with PI1. change (i_elected i) with E. rewrite PI1_elected.
+  apply fold_left_ext. intros m k. unfold rewardable_key, update_key.
+  destruct (aget k m) eqn:Ek; [|reflexivity]. unfold g. fold E.
+  destruct (is_rewardable E p); [reflexivity|]. symmetry. apply aset_same. assumption.
+Qed.
+
+Lemma PI2_get k :
+  aget k (pi_preps PI2) = if memb k R then option_map g (aget k (pi_preps PI1)) else aget k (pi_preps PI1).
+Proof. rewrite PI2_preps. apply aget_fold_update. apply R_NoDup. Qed.
+
+Lemma PI2_NoDup : NoDup (keys (pi_preps PI2)).
+Proof. rewrite PI2_preps, keys_fold_update. apply PI1_inv. Qed.
+
+Lemma PI2_outside k p : aget k (pi_preps PI2) = Some p -> ~ In k R -> rewards_zero p.
+Proof.
+  intros Hp Hk. rewrite PI2_get in Hp. apply memb_false in Hk. rewrite Hk in Hp.
+  destruct PI1_inv as [Hz _]. apply (Hz k p Hp).
+Qed.
+
+Lemma total_eq : total = sumZ (accp_of (pi_preps PI1)) R.
+Proof. apply PI1_total. Qed.
+
+Lemma accp_of_nonneg k : In k R -> 0 <= accp_of (pi_preps PI1) k.
+Proof.
+  intros Hk. destruct (elected_final k Hk) as (s & Hs & Hap & _). unfold accp_of. rewrite Hs. assumption.
+Qed.
+
+Lemma total_nonneg : 0 <= total.
+Proof. rewrite total_eq. apply sumZ_nonneg. apply accp_of_nonneg. Qed.
+
+Lemma accp_le_total k : In k R -> accp_of (pi_preps PI1) k <= total.
+Proof.
+  intros Hk. rewrite total_eq. pose proof R_NoDup as Hnd. revert Hk Hnd.
+  pose proof accp_of_nonneg as Hnn. revert Hnn. generalize R as l.
+  induction l as [|a l IH]; intros Hnn Hk Hnd; [destruct Hk|].
+  rewrite sumZ_cons. inversion Hnd; subst.
+  assert (0 <= sumZ (accp_of (pi_preps PI1)) l) by (apply sumZ_nonneg; intros x Hx; apply Hnn; right; assumption).
+  destruct Hk as [->|Hk]; [lia|].
+  specialize (IH (fun x Hx => Hnn x (or_intror Hx)) Hk H2).
+  pose proof (Hnn a (or_introl eq_refl)). lia.
+Qed.
+
+(* the voter share of one (P-Rep, accumulated votes) pair *)
+Definition share (k : addr) (av : Z) : Z := voter_share E (pi_preps PI2) (k, av).
+
+Lemma share_zero k : share k 0 = 0.
+Proof.
+  unfold share, voter_share. destruct (aget k (pi_preps PI2)); [|reflexivity].
+  destruct (is_rewardable E p); [|reflexivity]. simpl. apply big_div_0_l.
+Qed.
+
+Lemma share_outside k av : ~ In k R -> share k av = 0.
+Proof.
+  intros Hk. unfold share, voter_share. destruct (aget k (pi_preps PI2)) eqn:Ek; [|reflexivity].
+  destruct (PI2_outside k p Ek Hk) as (_ & Hvr & _).
+  destruct (is_rewardable E p); [|reflexivity]. rewrite Hvr, Z.mul_0_r. apply big_div_0_l.
+Qed.
+
+(* one elected P-Rep: its commission and everything its voters get stay within its power share *)
+Lemma key_bound k : In k R ->
+  (match aget k (pi_preps PI2) with Some p => p_comm p | None => 0 end)
+  + sumZ (fun v => share k (acc_votes i v k)) V
+  <= big_div (T * accp_of (pi_preps PI1) k) total.
+Proof.
+  intros Hk. destruct (elected_final k Hk) as (s & Hs & Hap & Hav & Hz & Hrate & Hsum).
+  pose proof T_nonneg as HT. pose proof total_nonneg as Htot.
+  assert (HPR : 0 <= big_div (T * accp_of (pi_preps PI1) k) total).
+  { apply big_div_nonneg; [|assumption]. unfold accp_of. rewrite Hs. nia. }
+  assert (Hg : aget k (pi_preps PI2) = Some (g s)).
+  { rewrite PI2_get. apply memb_In in Hk. rewrite Hk, Hs. reflexivity. }
+  rewrite Hg. unfold share, voter_share. rewrite Hg.
+  unfold accp_of in *. rewrite Hs in *.
+  unfold g. destruct (is_rewardable E s) eqn:Er.
+  - set (PR := big_div (T * p_accp s) total) in *.
+    assert (Hr2 : is_rewardable E (prep_calculate_reward T total (i_minbond i) per s) = true) by exact Er.
+    rewrite Hr2.
+    change (p_comm (prep_calculate_reward T total (i_minbond i) per s)) with (rate_mul (p_rate s) PR).
+    change (p_vr (prep_calculate_reward T total (i_minbond i) per s)) with (PR - rate_mul (p_rate s) PR).
+    change (p_accv (prep_calculate_reward T total (i_minbond i) per s)) with (p_accv s).
+    pose proof (rate_mul_bounds (p_rate s) PR Hrate HPR) as Hc.
+    assert (Hpos : 0 < p_accv s).
+    { unfold is_rewardable in Er. apply andb_true_iff in Er as [_ Er]. lia. }
+    rewrite (sumZ_ext_in _ (fun v => acc_votes i v k * (PR - rate_mul (p_rate s) PR) / p_accv s)).
+    2:{ intros v _. apply big_div_pos; assumption. }
+    pose proof (floor_sum_le (fun v => acc_votes i v k) V (PR - rate_mul (p_rate s) PR) (p_accv s)
+                  ltac:(lia) Hpos (fun v _ => acc_votes_nonneg v k) ltac:(lia)) as Hfl.
+    cbv beta in Hfl. lia.
+  - destruct Hz as (Hc & _). rewrite Hc. rewrite Er. rewrite sumZ_zero by reflexivity. lia.
+Qed.
+
+Lemma sum_power_shares : sumZ (fun k => big_div (T * accp_of (pi_preps PI1) k) total) R <= T.
+Proof.
+  pose proof T_nonneg as HT. pose proof total_nonneg as Htot.
+  destruct (Z.eq_dec total 0) as [H0|H0].
+  - rewrite H0. rewrite sumZ_zero by reflexivity. assumption.
+  - rewrite (sumZ_ext_in _ (fun k => accp_of (pi_preps PI1) k * T / total)).
+    2:{ intros k _. rewrite big_div_pos by lia. f_equal. ring. }
+    apply floor_sum_le; try lia.
+    + apply accp_of_nonneg.
+    + rewrite <- total_eq. lia.
+Qed.
+
+Lemma voter_reward_reindex v :
+  voter_calculate_reward E (pi_preps PI2) (voter_acc i v) = sumZ (fun k => share k (acc_votes i v k)) R.
+Proof.
+  unfold voter_calculate_reward.
+  rewrite (sumZ_ext_in _ (fun e => share (fst e) (snd e))) by (intros [k av] _; reflexivity).
+  rewrite (sumZ_entries_reindex share (voter_acc i v) R (voter_acc_NoDup i v) R_NoDup).
+  - apply sumZ_ext_in. intros k _. rewrite <- voter_acc_getz. unfold getz.
+    destruct (aget k (voter_acc i v)); [reflexivity|symmetry; apply share_zero].
+  - intros k av _ Hk. apply share_outside; assumption.
+Qed.
+
+Lemma comm_reindex :
+  sumZ (fun e => p_comm (snd e)) (pi_preps PI2)
+  = sumZ (fun k => match aget k (pi_preps PI2) with Some p => p_comm p | None => 0 end) R.
+Proof.
+  apply (sumZ_entries_reindex (fun _ p => p_comm p) (pi_preps PI2) R PI2_NoDup R_NoDup).
+  intros k p Hin Hk. apply (In_aget _ _ _ PI2_NoDup) in Hin. apply (PI2_outside k p Hin Hk).
+Qed.
+
+Lemma wage_reindex :
+  sumZ (fun e => p_wage (snd e)) (pi_preps PI2)
+  = sumZ (fun k => match aget k (pi_preps PI2) with Some p => p_wage p | None => 0 end) R.
+Proof.
+  apply (sumZ_entries_reindex (fun _ p => p_wage p) (pi_preps PI2) R PI2_NoDup R_NoDup).
+  intros k p Hin Hk. apply (In_aget _ _ _ PI2_NoDup) in Hin. apply (PI2_outside k p Hin Hk).
+Qed.
+
+(* commissions + voter rewards <= the Iprep period budget *)
+Lemma prep_fund_bound :
+  sumZ (fun e => p_comm (snd e)) (pi_preps PI2) + sumZ snd (voter_credits i PI2) <= T.
+Proof.
+  unfold voter_credits. rewrite sumZ_map. cbn [snd]. change (i_elected i) with E. change (voters i) with V.
+  rewrite (sumZ_ext_in (fun v => voter_calculate_reward E (pi_preps PI2) (voter_acc i v))
+                       (fun v => sumZ (fun k => share k (acc_votes i v k)) R) V) by (intros v _; apply voter_reward_reindex).
+  rewrite sumZ_swap, comm_reindex, <- sumZ_add.
+  eapply Z.le_trans; [|apply sum_power_shares].
+  apply sumZ_le_in. intros k Hk. apply key_bound; assumption.
+Qed.
+
+(* ------------------------------------------------------------------ commission split, voter share *)
+Lemma split_elected k : In k R ->
+  exists p, aget k (pi_preps PI2) = Some p /\
+    let PR := if is_rewardable E p then big_div (T * p_accp p) total else 0 in
+    p_comm p = rate_mul (p_rate p) PR /\ p_vr p = PR - p_comm p /\ 0 <= p_comm p <= PR
+    /\ (is_rewardable E p = true -> 0 < p_accv p /\ 0 < total)
+    /\ sumZ (fun v => share k (acc_votes i v k)) V <= p_vr p.
+Proof.
+  intros Hk. destruct (elected_final k Hk) as (s & Hs & Hap & Hav & Hz & Hrate & Hsum).
+  pose proof T_nonneg as HT. pose proof total_nonneg as Htot.
+  pose proof (accp_le_total k Hk) as Hle. unfold accp_of in Hle. rewrite Hs in Hle.
+  assert (HPR : 0 <= big_div (T * p_accp s) total) by (apply big_div_nonneg; [nia|assumption]).
+  assert (Hg : aget k (pi_preps PI2) = Some (g s)).
+  { rewrite PI2_get. apply memb_In in Hk. rewrite Hk, Hs. reflexivity. }
+  exists (g s). split; [assumption|].
+  unfold share, voter_share. rewrite Hg. unfold g.
+  destruct (is_rewardable E s) eqn:Er.
+  - set (PR := big_div (T * p_accp s) total) in *.
+    assert (Hr2 : is_rewardable E (prep_calculate_reward T total (i_minbond i) per s) = true) by exact Er.
+    rewrite Hr2. cbv zeta.
+    change (p_comm (prep_calculate_reward T total (i_minbond i) per s)) with (rate_mul (p_rate s) PR).
+    change (p_vr (prep_calculate_reward T total (i_minbond i) per s)) with (PR - rate_mul (p_rate s) PR).
+    change (p_accv (prep_calculate_reward T total (i_minbond i) per s)) with (p_accv s).
+    change (p_accp (prep_calculate_reward T total (i_minbond i) per s)) with (p_accp s).
+    change (p_rate (prep_calculate_reward T total (i_minbond i) per s)) with (p_rate s).
+    fold PR.
+    pose proof (rate_mul_bounds (p_rate s) PR Hrate HPR) as Hc.
+    assert (Hpos : 0 < p_accv s /\ 0 < total).
+    { unfold is_rewardable in Er. apply andb_true_iff in Er as [_ Er]. lia. }
+    split; [reflexivity|]. split; [reflexivity|]. split; [assumption|]. split; [intros _; assumption|].
+    rewrite (sumZ_ext_in _ (fun v => acc_votes i v k * (PR - rate_mul (p_rate s) PR) / p_accv s)).
+    2:{ intros v _. apply big_div_pos; apply Hpos. }
+    pose proof (floor_sum_le (fun v => acc_votes i v k) V (PR - rate_mul (p_rate s) PR) (p_accv s)
+                  ltac:(lia) (proj1 Hpos) (fun v _ => acc_votes_nonneg v k) ltac:(lia)) as Hfl.
+    cbv beta in Hfl. lia.
+  - rewrite Er. cbv zeta. destruct Hz as (Hc & Hvr & _). rewrite Hc, Hvr.
+    split; [reflexivity|]. split; [reflexivity|]. split; [lia|]. split; [discriminate|].
+    rewrite sumZ_zero by reflexivity. lia.
+Qed.
+
+Lemma share_formula k p av : aget k (pi_preps PI2) = Some p ->
+  share k av = if is_rewardable E p then av * p_vr p / p_accv p else 0.
+Proof.
+  intros Hp. unfold share, voter_share. rewrite Hp.
+  destruct (is_rewardable E p) eqn:Er; [|reflexivity].
+  destruct (in_dec N.eq_dec k R) as [Hk|Hk].
+  - destruct (split_elected k Hk) as (p' & Hp' & _ & _ & _ & Hpos & _).
+    rewrite Hp in Hp'. inversion Hp'; subst p'. apply big_div_pos. apply Hpos; assumption.
+  - destruct (PI2_outside k p Hp Hk) as (_ & Hvr & _). rewrite Hvr, Z.mul_0_r, big_div_0_l, Zdiv_0_l. reflexivity.
+Qed.
+
+Lemma voter_credit_formula v :
+  voter_calculate_reward E (pi_preps PI2) (voter_acc i v)
+  = sumZ (fun kp => if is_rewardable E (snd kp)
+                    then acc_votes i v (fst kp) * p_vr (snd kp) / p_accv (snd kp) else 0) (pi_preps PI2).
+Proof.
+  rewrite voter_reward_reindex.
+  rewrite (sumZ_entries_reindex (fun k p => if is_rewardable E p then acc_votes i v k * p_vr p / p_accv p else 0)
+             (pi_preps PI2) R PI2_NoDup R_NoDup).
+  - apply sumZ_ext_in. intros k _. destruct (aget k (pi_preps PI2)) eqn:Ek.
+    + apply share_formula; assumption.
+    + unfold share, voter_share. rewrite Ek. reflexivity.
+  - intros k p Hin Hk. apply (In_aget _ _ _ PI2_NoDup) in Hin.
+    destruct (PI2_outside k p Hin Hk) as (_ & Hvr & _). rewrite Hvr, Z.mul_0_r, Zdiv_0_l.
+    destruct (is_rewardable E p); reflexivity.
+Qed.
+
+Lemma shares_within k p : aget k (pi_preps PI2) = Some p ->
+  sumZ (fun v => share k (acc_votes i v k)) V <= p_vr p /\ 0 <= p_vr p /\ 0 <= p_comm p /\ 0 <= p_wage p.
+Proof.
+  intros Hp. destruct (in_dec N.eq_dec k R) as [Hk|Hk].
+  - destruct (split_elected k Hk) as (p' & Hp' & Hc & Hvr & Hb & _ & Hsh).
+    rewrite Hp in Hp'. inversion Hp'; subst p'. cbv zeta in *.
+    split; [assumption|]. split; [lia|]. split; [lia|].
+    destruct (elected_final k Hk) as (s & Hs & _ & _ & Hz & _).
+    rewrite PI2_get in Hp. apply memb_In in Hk. rewrite Hk, Hs in Hp. simpl in Hp. inversion Hp; subst p.
+    unfold g. destruct Hz as (_ & _ & Hw). pose proof W_nonneg as HW. pose proof (wf_elected i WF) as HE0. fold E in HE0.
+    assert (Hper : 0 <= per) by (apply big_div_nonneg; lia).
+    destruct (is_rewardable E s); [|lia]. simpl. destruct (i_minbond i <=? p_bonded s); lia.
+  - destruct (PI2_outside k p Hp Hk) as (Hc & Hvr & Hw). rewrite Hc, Hvr, Hw.
+    split; [|lia]. rewrite sumZ_zero; [lia|]. intros v _. apply share_outside; assumption.
+Qed.
+
+Hypothesis HE : E <> 0.
+
+(* wages <= the Iwage period budget *)
+Lemma wage_fund_bound : sumZ (fun e => p_wage (snd e)) (pi_preps PI2) <= W.
+Proof.
+  rewrite wage_reindex.
+  pose proof W_nonneg as HW. pose proof (wf_elected i WF) as HE0. fold E in HE0.
+  assert (Hper : 0 <= per) by (apply big_div_nonneg; lia).
+  eapply Z.le_trans; [apply (sumZ_le_const _ per)|].
+  - intros k Hk. destruct (elected_final k Hk) as (s & Hs & _ & _ & Hz & _).
+    rewrite PI2_get. apply memb_In in Hk. rewrite Hk, Hs. simpl. unfold g.
+    destruct Hz as (_ & _ & Hw).
+    destruct (is_rewardable E s); [|lia]. simpl. destruct (i_minbond i <=? p_bonded s); lia.
+  - pose proof R_length. unfold per. rewrite big_div_pos by lia.
+    assert (E * (W / E) <= W) by (apply Z.mul_div_le; lia). nia.
+Qed.
+
+End Term.
+
+(* ================================================================== the theorems *)
+Lemma calculate_ok_inv i o : calculate i = ROk o ->
+  update_voting_ok i = true /\
+  ((i_elected i = 0 /\ o = mkObsM (events_applied i) [] []) \/
+   (i_elected i <> 0 /\
+    o = mkObsM (rewards_calculated i) (prep_credits (rewards_calculated i))
+               (voter_credits i (rewards_calculated i)))).
+Proof.
+  unfold calculate. destruct (update_voting_ok i); simpl; [|discriminate].
+  destruct (i_elected i =? 0) eqn:E0.
+  - intros H; inversion H. split; [reflexivity|]. left. split; [lia|reflexivity].
+  - destruct (pi_reward_panics _ _); [discriminate|].
+    destruct (voters_panic _ _); [discriminate|].
+    intros H; inversion H. split; [reflexivity|]. right. split; [lia|reflexivity].
+Qed.
+
+Lemma zero_rewards_sum (f : prep -> Z) (m : amap prep) :
+  NoDup (keys m) -> all_vals (fun p => f p = 0) m -> sumZ (fun e => f (snd e)) m = 0.
+Proof.
+  intros Hnd Hz. apply sumZ_zero. intros [k p] Hin. simpl. apply (Hz k p). apply In_aget; assumption.
+Qed.
+
+(* separate funds: commissions + voter rewards within the Iprep budget, wages within the Iwage budget *)
+Theorem reward_budget_funds i o :
+  wf_inputb i = true -> calculate i = ROk o ->
+  sumZ (fun e => p_comm (snd e)) (pi_preps (m_info o)) + sumZ snd (m_voter_credits o) <= budget_prep i
+  /\ sumZ (fun e => p_wage (snd e)) (pi_preps (m_info o)) <= budget_wage i.
+Proof.
+  intros Hwf Hc. apply wf_inputb_wf in Hwf. apply calculate_ok_inv in Hc as [UV [[HE ->]|[HE ->]]]; simpl.
+  - destruct (PI1_inv i Hwf) as [Hz Hnd].
+    rewrite (zero_rewards_sum p_comm), (zero_rewards_sum p_wage); try assumption.
+    + pose proof (T_nonneg i Hwf). pose proof (W_nonneg i Hwf). lia.
+    + intros k p Hp. apply (Hz k p Hp).
+    + intros k p Hp. apply (Hz k p Hp).
+  - split; [apply prep_fund_bound; assumption|apply wage_fund_bound; assumption].
+Qed.
+
+Lemma prep_credits_sum pi :
+  sumZ snd (prep_credits pi) = sumZ (fun e => p_comm (snd e)) (pi_preps pi) + sumZ (fun e => p_wage (snd e)) (pi_preps pi).
+Proof. unfold prep_credits. rewrite sumZ_map. simpl. unfold prep_reward_total. apply sumZ_add. Qed.
+
+(* the property: everything credited for the term <= the term's budget *)
+Theorem reward_budget i o :
+  wf_inputb i = true -> calculate i = ROk o ->
+  sumZ snd (m_prep_credits o) + sumZ snd (m_voter_credits o) <= budget_prep i + budget_wage i.
+Proof.
+  intros Hwf Hc. pose proof (reward_budget_funds i o Hwf Hc) as [H1 H2].
+  apply wf_inputb_wf in Hwf. apply calculate_ok_inv in Hc as [UV [[HE ->]|[HE ->]]];
+    cbn [m_prep_credits m_voter_credits m_info] in *.
+  - pose proof (T_nonneg i Hwf). pose proof (W_nonneg i Hwf). rewrite !sumZ_nil. lia.
+  - rewrite prep_credits_sum. lia.
+Qed.
+
+(* every credit is what the model's P-Rep / voter record says, and is not negative *)
+Theorem credits_nonneg i o :
+  wf_inputb i = true -> calculate i = ROk o ->
+  (forall c, In c (m_prep_credits o) -> 0 <= snd c) /\ (forall c, In c (m_voter_credits o) -> 0 <= snd c).
+Proof.
+  intros Hwf Hc. apply wf_inputb_wf in Hwf. apply calculate_ok_inv in Hc as [UV [[HE ->]|[HE ->]]]; simpl.
+  - split; intros c [].
+  - split.
+    + intros c Hin. unfold prep_credits in Hin. apply in_map_iff in Hin as ([k p] & <- & Hin). simpl.
+      apply (In_aget _ _ _ (PI2_NoDup i Hwf)) in Hin.
+      destruct (shares_within i Hwf UV k p Hin) as (_ & _ & H1 & H2). unfold prep_reward_total. lia.
+    + intros c Hin. unfold voter_credits in Hin. apply in_map_iff in Hin as (v & <- & Hin). simpl.
+      rewrite (voter_credit_formula i Hwf UV). apply sumZ_nonneg. intros [k p] Hkp. simpl.
+      destruct (is_rewardable (i_elected i) p) eqn:Er; [|lia].
+      apply (In_aget _ _ _ (PI2_NoDup i Hwf)) in Hkp.
+      destruct (shares_within i Hwf UV k p Hkp) as (_ & Hvr & _).
+      pose proof (acc_votes_nonneg i Hwf UV v k).
+      destruct (in_dec N.eq_dec k (elected_keys (i_elected i) (load_prep_info i))) as [Hk|Hk].
+      * destruct (split_elected i Hwf UV k Hk) as (p' & Hp' & _ & _ & _ & Hpos & _).
+        rewrite Hkp in Hp'. inversion Hp'; subst p'. specialize (Hpos Er). apply Z.div_pos; [nia|lia].
+      * destruct (PI2_outside i Hwf k p Hkp Hk) as (_ & Hv0 & _). rewrite Hv0, Z.mul_0_r, Zdiv_0_l. lia.
+Qed.
+
+(* the voter share: exact formula over the closed form of the accumulated votes, and the
+   shares of one P-Rep's voters stay within that P-Rep's voter reward *)
+Theorem voter_share_formula i o :
+  wf_inputb i = true -> calculate i = ROk o -> i_elected i <> 0 ->
+  (forall v, In v (voters i) ->
+     aget v (m_voter_credits o) =
+     Some (sumZ (fun kp => if is_rewardable (i_elected i) (snd kp)
+                           then acc_votes i v (fst kp) * p_vr (snd kp) / p_accv (snd kp) else 0)
+                (pi_preps (m_info o))))
+  /\ (forall k p, In (k, p) (pi_preps (m_info o)) ->
+        sumZ (fun v => if is_rewardable (i_elected i) p then acc_votes i v k * p_vr p / p_accv p else 0) (voters i)
+        <= p_vr p).
+Proof.
+  intros Hwf Hc HE. apply wf_inputb_wf in Hwf. apply calculate_ok_inv in Hc as [UV [[HE0 ->]|[_ ->]]]; [contradiction|]. simpl.
+  split.
+  - intros v Hv. rewrite <- (voter_credit_formula i Hwf UV). unfold voter_credits.
+    induction (voters i) as [|a l IH]; [destruct Hv|]. simpl.
+    destruct (N.eqb v a) eqn:Ea; [apply N.eqb_eq in Ea; subst; reflexivity|].
+    apply IH. destruct Hv as [->|Hv]; [rewrite N.eqb_refl in Ea; discriminate|assumption].
+  - intros k p Hin. apply (In_aget _ _ _ (PI2_NoDup i Hwf)) in Hin.
+    destruct (shares_within i Hwf UV k p Hin) as (Hs & _).
+    rewrite (sumZ_ext_in _ (fun v => share i k (acc_votes i v k))); [assumption|].
+    intros v _. symmetry. apply share_formula; assumption.
+Qed.
+
+(* the commission split of every P-Rep *)
+Theorem commission_split i o :
+  wf_inputb i = true -> calculate i = ROk o -> i_elected i <> 0 ->
+  forall k p, In (k, p) (pi_preps (m_info o)) ->
+    let prep_share := if memb k (elected_keys (i_elected i) (m_info o)) && is_rewardable (i_elected i) p
+                      then budget_prep i * p_accp p / pi_total (m_info o) else 0 in
+    p_comm p = rate_mul (p_rate p) prep_share /\ p_comm p + p_vr p = prep_share
+    /\ 0 <= p_comm p /\ 0 <= p_vr p.
+Proof.
+  intros Hwf Hc HE. apply wf_inputb_wf in Hwf. apply calculate_ok_inv in Hc as [UV [[HE0 ->]|[_ ->]]]; [contradiction|].
+  intros k p Hin. simpl in Hin. apply (In_aget _ _ _ (PI2_NoDup i Hwf)) in Hin.
+  assert (Hek : elected_keys (i_elected i) (rewards_calculated i) = elected_keys (i_elected i) (load_prep_info i)).
+  { unfold rewards_calculated, pi_calculate_reward, elected_keys. simpl. fold (elected_keys (i_elected i) (events_applied i)).
+    apply PI1_elected. }
+  assert (Htot : pi_total (rewards_calculated i) = pi_total (events_applied i)) by reflexivity.
+  cbn [m_info]. rewrite Hek, Htot.
+  destruct (memb k (elected_keys (i_elected i) (load_prep_info i))) eqn:Ek.
+  - apply memb_In in Ek. destruct (split_elected i Hwf UV k Ek) as (p' & Hp' & Hc & Hvr & Hb & Hpos & _).
+    rewrite Hin in Hp'. inversion Hp'; subst p'. cbv zeta in *. simpl andb.
+    destruct (is_rewardable (i_elected i) p) eqn:Er.
+    + rewrite big_div_pos in * by (apply Hpos; reflexivity). repeat split; try lia; try assumption.
+    + repeat split; try lia; try assumption.
+  - apply memb_false in Ek. destruct (PI2_outside i Hwf k p Hin Ek) as (H1 & H2 & _). simpl andb. cbv zeta.
+    rewrite H1, H2. repeat split; try lia.
+Qed.
+
+(* ================================================================== non-vacuity *)
+(* a well-formed term: three P-Reps (one disabled during the term, so its power share stays
+   unpaid), one registered during the term, bond/delegation changes, wage for the P-Rep
+   whose bond reaches the minimum *)
+Definition ex_input : input :=
+  mkInput 3000000000000000000000000 7700 1300 100 500 3 99
+   [mkVoted 1%N 0 1000 100 1000 true; mkVoted 2%N 0 3000 99 0 true; mkVoted 3%N 0 7 0 10000 true]
+   [(100%N, [(1%N,1000);(2%N,1000)]); (101%N, [(2%N,2000);(3%N,7)])]
+   [(1%N,[(1%N,100)]); (2%N,[(2%N,99)])]
+   [(10, EEnable 2%N 2); (20, EEnable 40%N 0); (30, EVote VBond 40%N [(40%N,1000)]);
+    (30, EVote VDelegate 101%N [(40%N,5);(2%N,-2000)]); (60, EVote VBond 1%N [(1%N, 50)])].
+
+Example ex_wf : wf_inputb ex_input = true.
+Proof. vm_compute. reflexivity. Qed.
+
+Example ex_calculates :
+  exists o, calculate ex_input = ROk o /\ i_elected ex_input <> 0
+            /\ 0 < sumZ snd (m_prep_credits o) /\ 0 < sumZ snd (m_voter_credits o)
+            /\ aget 100%N (m_voter_credits o) = Some 64382735125748679234175.
+Proof.
+  eexists. split; [vm_compute; reflexivity|]. split; [discriminate|].
+  split; [vm_compute; reflexivity|]. split; vm_compute; reflexivity.
+Qed.
+
+(* the consistency hypothesis is needed: voters holding more votes than the P-Rep's record
+   shows are credited more than the whole budget *)
+Definition ex_inconsistent : input :=
+  mkInput 3000000000000000000000000 10000 0 100 500 1 99
+   [mkVoted 1%N 0 10 100 0 true] [(100%N, [(1%N,1000)])] [(1%N,[(1%N,100)])] [].
+
+Example ex_inconsistent_exceeds :
+  wf_inputb ex_inconsistent = false /\
+  exists o, calculate ex_inconsistent = ROk o /\
+            budget_prep ex_inconsistent + budget_wage ex_inconsistent
+            < sumZ snd (m_prep_credits o) + sumZ snd (m_voter_credits o).
+Proof. split; [vm_compute; reflexivity|]. eexists. split; vm_compute; reflexivity. Qed.
+
+(* a voter taking back more than it holds: statically well-formed, the calculation fails *)
+Definition ex_overdraw : input :=
+  mkInput 3000000000000000000000000 10000 0 100 500 1 99
+   [mkVoted 1%N 0 1000 100 0 true] [(100%N, [(1%N,1000)])] [(1%N,[(1%N,100)])]
+   [(5, EVote VDelegate 100%N [(1%N, -1001)])].
+
+Example ex_overdraw_fails : wf_inputb ex_overdraw = true /\ calculate ex_overdraw = RErr.
+Proof. split; vm_compute; reflexivity. Qed.
